@@ -16,7 +16,7 @@ RULE = ("(1) tree level: regression corpus + snippets + random programs + shape 
 
 
 def cases_tree(O):
-    return E.default_cases(O, "C01", n_quick=700, n_thorough=4000)
+    return E.default_cases(O, "C01", n_quick=700, n_thorough=12000)
 
 
 def cases(O):
@@ -45,7 +45,7 @@ def core_tie(O):
     language, the extracted [sem_tie] abstracts the input expression, applies rw, and compares with the abstraction of what
     the implementation (and the executable model) produced."""
     import coregen
-    n = 1500 if O.tier == "quick" else 10000
+    n = 1500 if O.tier == "quick" else 30000
     cs = []
     for i in range(n):
         rng = random.Random("%s/c01core/%d" % (O.seed, i))
@@ -83,7 +83,7 @@ def run(O, P):
     core_tie(O)
     # execution level
     import execgen
-    n = 400 if O.tier == "quick" else 6000
+    n = 400 if O.tier == "quick" else 18000
     cs = []
     for i in range(n):
         rng = random.Random("%s/c01x/%d" % (O.seed, i))
@@ -91,7 +91,7 @@ def run(O, P):
         cs.append({"id": "c01x-%d" % i, "config": cfg, "calls": [{"code": execgen.program("%s/c01" % O.seed, i), "file": "exec.js"}], "opts": {}})
     # the shape catalogue, executed: every function `f` of a catalogue program is called with observable arguments
     import catalogue
-    ncat = 500 if O.tier == "quick" else 6000
+    ncat = 500 if O.tier == "quick" else 18000
     kept = 0
     for i, code in enumerate(catalogue.catalogue("%s/c01catx" % O.seed, 4 * ncat)):
         if kept >= ncat:
